@@ -282,12 +282,53 @@ func runC39Case(ctx context.Context, r *vkit.Run, base *vkit.Rand, c c39Case, vi
 			return
 		}
 	}
-	cr := vmodel.Exec(ctx, s, &vmodel.Op{Kind: vmodel.OpMpuCreate, Bucket: b0, Key: "fix/multipart"})
-	if cr.Kind == "" {
-		for pn := int32(1); pn <= 3; pn++ {
-			_ = vmodel.Exec(ctx, s, &vmodel.Op{Kind: vmodel.OpMpuPart, Bucket: b0, Key: "fix/multipart", UploadID: cr.UploadID, PartNumber: pn, Body: rng.Bytes(5000 + rng.Intn(4000))})
+	// multipart objects of every checksum type, and objects SHARING stored parts with
+	// them: copies whose key sorts before / after the original (same bucket and the
+	// other bucket: the validator walks buckets and keys in order, so both "original
+	// first" and "copy first" occur), and two uploads with one identical part body.
+	multipart := func(bucket, key string, ctype *string, bodies ...[]byte) bool {
+		cr := vmodel.Exec(ctx, s, &vmodel.Op{Kind: vmodel.OpMpuCreate, Bucket: bucket, Key: key, ChecksumType: ctype})
+		if cr.Kind != "" {
+			r.Inconclusive(fmt.Sprintf("case %d: cannot build shape %s: %s", c.Index, key, cr.ErrText))
+			return false
 		}
-		_ = vmodel.Exec(ctx, s, &vmodel.Op{Kind: vmodel.OpMpuComplete, Bucket: b0, Key: "fix/multipart", UploadID: cr.UploadID})
+		for i, body := range bodies {
+			if res := vmodel.Exec(ctx, s, &vmodel.Op{Kind: vmodel.OpMpuPart, Bucket: bucket, Key: key, UploadID: cr.UploadID, PartNumber: int32(i + 1), Body: body}); res.Kind != "" {
+				r.Inconclusive(fmt.Sprintf("case %d: cannot build shape %s part %d: %s", c.Index, key, i+1, res.ErrText))
+				return false
+			}
+		}
+		if res := vmodel.Exec(ctx, s, &vmodel.Op{Kind: vmodel.OpMpuComplete, Bucket: bucket, Key: key, UploadID: cr.UploadID}); res.Kind != "" {
+			r.Inconclusive(fmt.Sprintf("case %d: cannot complete shape %s: %s", c.Index, key, res.ErrText))
+			return false
+		}
+		name := "default"
+		if ctype != nil {
+			name = *ctype
+		}
+		r.Count("fixed_multipart_objects:checksum-type="+name, 1)
+		return true
+	}
+	part := func() []byte { return rng.Bytes(5000 + rng.Intn(4000)) }
+	dedupPart := part()
+	if !multipart(b0, "fix/multipart", nil, part(), part(), part()) ||
+		!multipart(b0, "fix/mp-composite", vkit.Ptr("COMPOSITE"), part(), part(), part()) ||
+		!multipart(b1, "fix/mp-full-object", vkit.Ptr("FULL_OBJECT"), part(), part()) ||
+		!multipart(b0, "fix/mp-dedup-1", nil, dedupPart, part()) ||
+		!multipart(b1, "fix/mp-dedup-2", vkit.Ptr("COMPOSITE"), part(), dedupPart) {
+		return
+	}
+	for _, op := range []*vmodel.Op{
+		{Kind: vmodel.OpCopy, Bucket: b0, Key: "fix/zz-copy-of-multipart", SrcBucket: b0, SrcKey: "fix/multipart"},
+		{Kind: vmodel.OpCopy, Bucket: b0, Key: "fix/aa-copy-of-mp-composite", SrcBucket: b0, SrcKey: "fix/mp-composite"},
+		{Kind: vmodel.OpCopy, Bucket: b1, Key: "fix/copy-of-mp-composite", SrcBucket: b0, SrcKey: "fix/mp-composite"},
+		{Kind: vmodel.OpCopy, Bucket: b0, Key: "fix/copy-of-mp-full-object", SrcBucket: b1, SrcKey: "fix/mp-full-object"},
+		{Kind: vmodel.OpCopy, Bucket: b0, Key: "fix/copy-of-appended", SrcBucket: b1, SrcKey: "fix/appended"},
+	} {
+		if res := vmodel.Exec(ctx, s, op); res.Kind != "" {
+			r.Inconclusive(fmt.Sprintf("case %d: cannot build shape %s: %s", c.Index, op, res.ErrText))
+			return
+		}
 	}
 
 	s0 := vmodel.Snapshot(ctx, s, vmodel.SnapOptions{})
@@ -427,7 +468,7 @@ func runC39Case(ctx context.Context, r *vkit.Run, base *vkit.Rand, c c39Case, vi
 	kinds := []string{"flip", "truncate", "extend", "remove", "swap"}
 	// target classes: later parts of multi-part objects, parts shared by several
 	// current objects, parts with an equal-size partner (swap), decoys, any
-	var laterParts, sharedParts []string
+	var laterParts, sharedParts, mpSharedParts []string
 	for _, o := range objects {
 		for i, p := range o.Parts {
 			if i > 0 {
@@ -438,9 +479,22 @@ func runC39Case(ctx context.Context, r *vkit.Run, base *vkit.Rand, c c39Case, vi
 	for _, id := range currentParts {
 		if len(sharers[id]) > 1 {
 			sharedParts = append(sharedParts, id)
+			// parts shared by several objects with a multipart-form ETag (multipart uploads,
+			// appended objects and their copies): their object-level checksums are derived
+			// from the part rows, so only the per-part check can notice the corruption
+			mp := 0
+			for _, o := range sharers[id] {
+				if strings.HasPrefix(o.Form, "multipart-etag") {
+					mp++
+				}
+			}
+			if mp > 1 {
+				mpSharedParts = append(mpSharedParts, id)
+			}
 		}
 	}
 	sort.Strings(laterParts)
+	r.Count("parts_shared_by_several_multipart_etag_objects", int64(len(mpSharedParts)))
 	pickFrom := func(pool []string) string {
 		for tries := 0; tries < 30 && len(pool) > 0; tries++ {
 			cand := pool[rng.Intn(len(pool))]
@@ -470,6 +524,8 @@ func runC39Case(ctx context.Context, r *vkit.Run, base *vkit.Rand, c c39Case, vi
 			}
 			sort.Strings(cands)
 			id = pickFrom(cands)
+		case n == 0 && c.Index%2 == 1 && len(mpSharedParts) > 0:
+			id, target = pickFrom(mpSharedParts), "current(part shared by several multipart-ETag objects)"
 		case n == 0 && len(laterParts) > 0:
 			id, target = pickFrom(laterParts), "current(later part of a multi-part object)"
 		case n == 1 && len(sharedParts) > 0:
